@@ -104,9 +104,10 @@ class PhaseField(_Simu):
         super().__init__(mesh, model, folder, verbosity)
 
         # Init internal variable
-        self.__psiP_e_pg: FeArray.FeArrayALike = np.empty(0, dtype=float)
-        # old positive elastic energy density psiPlus(e, pg, 1) to use the miehe history field
-        self.__old_psiP_e_pg: FeArray.FeArrayALike = np.empty(0, dtype=float)
+        # positive elastic energy density psiPlus (e, pg) of each element group {elemType: array}
+        self.__psiP_e_pg: dict = {}
+        # old positive elastic energy density of each element group, to use the miehe history field
+        self.__old_psiP_e_pg: dict = {}
 
         self.Need_Update()
 
@@ -516,11 +517,13 @@ class PhaseField(_Simu):
 
         if phaseFieldModel.solver == "History":
             # Get the old history field
-            old_psiPlus_e_pg = self.__old_psiP_e_pg.copy()  # type: ignore [union-attr]
+            old_psiPlus_e_pg = self.__old_psiP_e_pg.get(groupElem.elemType)
 
-            if isinstance(old_psiPlus_e_pg, list) and len(old_psiPlus_e_pg) == 0:
+            if old_psiPlus_e_pg is None:
                 # No damage available yet
                 old_psiPlus_e_pg = np.zeros_like(psiP_e_pg)
+            else:
+                old_psiPlus_e_pg = old_psiPlus_e_pg.copy()
 
             if old_psiPlus_e_pg.shape != psiP_e_pg.shape:
                 # the mesh has been changed, the value must be recalculated
@@ -537,9 +540,9 @@ class PhaseField(_Simu):
             # old = np.linalg.norm(self.__old_psiP_e_pg)
             # assert new >= old, "Error"
 
-        self.__psiP_e_pg = FeArray.asfearray(psiP_e_pg)
+        self.__psiP_e_pg[groupElem.elemType] = FeArray.asfearray(psiP_e_pg)
 
-        return self.__psiP_e_pg
+        return self.__psiP_e_pg[groupElem.elemType]
 
     def __Construct_Damage_Matrix(self):
 
@@ -626,7 +629,7 @@ class PhaseField(_Simu):
 
         if self.phaseFieldModel.solver == self.phaseFieldModel.SolverType.History:
             # update old history field for next resolution
-            self.__old_psiP_e_pg = self.__psiP_e_pg
+            self.__old_psiP_e_pg = dict(self.__psiP_e_pg)
 
         iter["displacement"] = self.displacement
         iter["damage"] = self.damage
@@ -654,9 +657,12 @@ class PhaseField(_Simu):
             and self.phaseFieldModel.solver == self.phaseFieldModel.SolverType.History
         ):
             # It's really useful to do this otherwise when we calculate psiP there will be a problem
-            self.__old_psiP_e_pg = FeArray.zeros(*self.__old_psiP_e_pg.shape)
+            self.__old_psiP_e_pg = {}
             # update psi+ with the current state
-            self.__old_psiP_e_pg = self.__Calc_psiPlus_e_pg(self.mesh.groupElem)
+            self.__old_psiP_e_pg = {
+                groupElem.elemType: self.__Calc_psiPlus_e_pg(groupElem)
+                for groupElem in self.mesh.Get_list_groupElem()
+            }
 
         return results
 
